@@ -163,6 +163,8 @@ def step (s : St) (toks : List String) : Option (St × String × String) :=
       let sp := s.absMan.eraseDups.filter (fun p => (c.succ p).contains n)
       some (s, showSet m, showSet sp)
   | "tagrace" :: _ => some (s, "consistent", "consistent")   -- runtime monitor: Tag racing Delete
+  | "pushdelrace" :: _ => some (s, "linearizable", "linearizable")   -- runtime monitor: Push racing Delete of one manifest
+  | "pushreopen" :: _ => some (s, "complete", "complete")   -- runtime monitor: concurrent pushes, then a reopened store knows them all
   | "overlap" :: rest => do
       -- two pushes of one descriptor that overlap in time.  Specification: in either
       -- sequential order of the two exactly one is accepted.  The code: the memory store
